@@ -284,13 +284,20 @@ Definition transport (known compiled : list Z) (ps : list ptype) (args : list ar
   end.
 
 (* ---- what the property asks of one well-typed argument ---- *)
+(* a typed nil pointer that the transport could represent: the parameter type
+   fixes the pointer type, or it is a *Result (which never goes through gob: it
+   is replaced by a reference).  A nil pointer of another type inside an
+   interface has no gob representation ("cannot encode nil pointer inside interface"). *)
+Definition nil_representable (p : ptype) (c : ctype) : bool :=
+  is_pointer c && (negb (is_iface p) || match c with CResult => true | _ => false end).
 (* must arrive intact: values of gob-encodable types, registered concrete types
-   inside interfaces, nil values (untyped nil, nil pointers), Results *)
+   inside interfaces, nil values whose type the parameter fixes (untyped nil, nil
+   pointers for pointer-typed parameters), Results *)
 Definition must_arrive (p : ptype) (a : arg) : bool :=
   match a with
-  | ANil => true
+  | ANil => match p with PC c => gob_handles c | _ => true end
   | AVal c _ => negb (internal c) && if is_iface p then registered c else gob_handles c
-  | ATNil c => is_pointer c && if is_iface p then registered c else gob_handles c
+  | ATNil c => nil_representable p c
   | AResult _ => true
   | ARef _ => false
   end.
@@ -303,12 +310,14 @@ Definition ships (p : ptype) (a : arg) : bool :=
   | AResult _ => true
   | ARef _ => false
   end.
-(* cannot be encoded: chan and func values (nil or not), unregistered types in interfaces
-   (nil or not) *)
+(* cannot be encoded: chan and func values (nil or not), unregistered types in
+   interfaces, typed nil pointers inside interfaces (gob has no representation
+   for them: "cannot encode nil pointer inside interface") *)
 Definition unencodable (p : ptype) (a : arg) : bool :=
   match a with
+  | ANil => match p with PC c => negb (gob_handles c) | _ => false end
   | AVal c _ => negb (internal c) && negb (if is_iface p then iface_sendable c else gob_handles c)
-  | ATNil c => negb (is_pointer c && if is_iface p then registered c else gob_handles c)
+  | ATNil c => negb (nil_representable p c)
   | _ => false
   end.
 
